@@ -142,3 +142,11 @@ class GenSource(object):
             else:
                 out.append(base + ch.weighted([(2, ch.int(0, span)), (1, 0), (1, span)]))
         return out
+
+
+def source_for(ch, features, **kw):
+    """the value source for a template with these generator features: a template that lays its marker values out
+    statically (a fixed number of them, some outside any replication) needs bitmaps whose bits are all zero"""
+    if 'all_bits_zero' in features:
+        kw['zero_bit_weight'] = (1, 1)
+    return GenSource(ch, **kw)
